@@ -83,7 +83,7 @@ struct BusLimits {
   long max_pending_service_starts = -1;
 };
 
-std::string make_bus_config(const std::string &policy_xml, const BusLimits &lim, const std::string &extra = "");
+std::string make_bus_config(const std::string &policy_xml, const BusLimits &l, const std::string &extra = "", bool fragment = false);
 extern const char *kAllowAllPolicy;
 
 class World {
